@@ -39,5 +39,10 @@ ROWS = {
   "property-based testing (rapid): differential over log levels in an isolated worker process with fd 1/2 captured",
   "Each generated input (samples, encoder output, truncations, hostile edits, CR3 trees with CTBO counts/indices beyond the logged arrays) is decoded under the default configuration and under SetLogger(in-memory writer, L) for eight levels; digest and error must be equal, no level may panic or kill the process, and the bytes that reached the worker's fd 1 / fd 2 during the default-configuration call must be 0.",
   "Trusted: the worker protocol (fd 3/4) and file-size measurement of fd 1/2; the worker is a bare main that prints nothing itself."),
+
+ "C10": ("exploration",
+  "property-based testing (rapid) against the byte-offset model computed by a JPEG marker-stream writer",
+  "Generated marker streams (up to 12 segments of all kinds before the DQT, up to two Exif and two XMP segments, payloads with 0xFF bytes and nested SOI/EOI, optional fill bytes) are scanned with generated callback behaviours (Exif: declared length in pieces / the library's reader / nil; XMP: nothing / prefix / all / all in odd pieces / nil); callback count and order, header fields incl. absolute TIFF offset, bytes readable inside each callback, nil error and the caller's reader position after the DQT are compared with the writer's model.",
+  "Trusted: the marker-stream writer in internal/gen and its offset model. Precondition as in the property: the Exif callback consumes its declared length; >= 64 bytes follow the DQT."),
 }
 NOT_APPLICABLE = {}
